@@ -52,7 +52,7 @@ Definition mem (n : bytes) (l : list bytes) : bool := existsb (bytes_eqb n) l.
 Definition s_size (o : option N) : bytes := match o with Some n => dec n | None => dash end.
 Definition s_jsonl (rs : list row) : bytes :=
   join [comma] (map (fun r => hex (r_name r) ++ colon :: kind_char (r_kind r) :: colon ::
-                              dec (match r_size r with Some n => n | None => 0 end)) rs).
+                              s_size (r_size r)) rs).
 Definition s_table (classify : bool) (rs : list row) : bytes :=
   join [comma] (map (fun r => kind_char (r_kind r) :: colon :: s_size (r_size r) ++ colon :: hex (display classify r)) rs).
 Definition s_table_q (classify : bool) (rs : list row) : bytes :=
